@@ -43,7 +43,9 @@ func runC33(c *Ctx) {
 			return ok && id.Name == "false"
 		}
 		w2 := f.AfterEdgesMustPass(present, retFalse, nil)
-		c.Check(w == nil && w2 == nil && len(present) > 0 && len(f.Find(ins)) == 1, "begin/test-and-insert", "beginRelocation registers a job only when none is registered for the address and reports the loser", c.P.Pos(begin.Decl.Pos()), f.describe(w)+f.describe(w2))
+		absent := f.CondEdges(func(e ast.Expr) bool { id, ok := e.(*ast.Ident); return ok && existsObj != nil && info.ObjectOf(id) == existsObj }, false)
+		wAbs := f.search(searchSpec{avoidEdges: absent, target: ins})
+		c.Check(w == nil && w2 == nil && wAbs == nil && len(absent) > 0 && len(present) > 0 && len(f.Find(ins)) == 1, "begin/test-and-insert", "beginRelocation registers a job only when none is registered for the address and reports the loser", c.P.Pos(begin.Decl.Pos()), f.describe(w)+f.describe(w2))
 		la := f.Locks(nil)
 		okCS := true
 		for _, a := range append(f.Find(ins), f.Find(func(n ast.Node) bool { _, _, _, ok := commaOkLookup(info, n, jobs); return ok })...) {
